@@ -34,7 +34,8 @@ MINIMUMS = {
     'quick': {'evaluations': 1500, 'applied_ok': 700, 'edit:alias-created': 100, 'edit:alias-broken': 60,
               'edit:subtree-moved': 100, 'edit:callable-incompatible': 60, 'edit:tag-added': 100,
               'identity_sharing_pairs': 150, 'unrelated_pairs': 80, 'empty_diff_checked': 300,
-              'pairs_with_registered_custom_container': 150},
+              'pairs_with_registered_custom_container': 150,
+              'pairs_swapping_to_a_callable_with_annotation_tags_partly_removed': 60},
     'thorough': {'evaluations': 1000},
 }
 
@@ -99,7 +100,8 @@ def gen_pair(rng, acc, pos_fraction=0.15, exclude_edits=(), extra_containers=())
   opts = gen.Opts(max_nodes=rng.choice([3, 6, 10]), max_depth=4, p_share=0.3, p_clone=0.1,
                   btypes=['Config', 'Config', 'Partial'], fns=FNS + (POS_FNS if use_pos else []),
                   lattice=0.0, leaves=LEAVES,
-                  containers=['list', 'tuple', 'dict', 'dict', 'point'] + list(extra_containers),
+                  containers=['list', 'tuple', 'dict', 'dict', 'point'] + list(extra_containers)
+                  + (['defaultdict'] if rng.random() < 0.3 else []),
                   explicit_tags=0.3, dict_keys=['k1', 'k2', 'k3', 4, 'a b'], uid=False)
   g = gen.DagGen(rng, opts)
   root_btype = rng.choice(['Config', 'Partial'])
@@ -134,6 +136,14 @@ def gen_pair(rng, acc, pos_fraction=0.15, exclude_edits=(), extra_containers=())
       if ok:
         edits.append(kind)
         acc.obs('edit:' + kind)
+  if mode != 'unrelated' and rng.random() < 0.3:
+    # a key that only the old dict has (for a defaultdict a lookup of it would create it)
+    maps = [n for n in gen.walk(new_root) if isinstance(n, gen.Map) and len(n.items) >= 2]
+    if maps:
+      mp = rng.choice(maps)
+      del mp.items[rng.randrange(len(mp.items))]
+      edits.append('dict-key-removed')
+      acc.obs('edit:dict-key-removed')
   memo_old = {}
   try:
     old = gen.to_fiddle(old_root, memo_old)
@@ -229,8 +239,43 @@ def custom_box_equal_to_old_box_elsewhere(old_root, new_root):
              for pn, cn in bn.items() for po, co in bo.items())
 
 
+def annotated_swap_pair(rng, acc):
+  """old configures a callable without annotation tags, new a callable WITH them - and in new
+  some of those annotation tags were removed again (remove_tag / clear_tags). The diff describes
+  exactly new's tags; applying it must not add what it does not mention."""
+  from vt import tags as vtags
+  vals = [gen.Leaf(rng.choice(LEAVES)) for _ in range(2)]
+  old_inner = gen.B('Config', kinds.three, kw={'a': vals[0], 'b': vals[1]})
+  new_inner = gen.B('Config', kinds.tagged_fn,
+                    kw={'a': gen.Leaf(vals[0].value), 'b': gen.Leaf(vals[1].value)})
+  if rng.random() < 0.6:
+    if rng.random() < 0.3:
+      new_inner.btype = 'Partial'       # (the two roots always have one type)
+    old_root = gen.B('Config', kinds.two, kw={'x': old_inner, 'y': gen.Leaf(1)})
+    new_root = gen.B('Config', kinds.two, kw={'x': new_inner, 'y': gen.Leaf(1)})
+    pick = lambda c: c.x
+  else:
+    old_root, new_root = old_inner, new_inner
+    pick = lambda c: c
+  old = gen.to_fiddle(old_root)
+  new = gen.to_fiddle(new_root)
+  tgt = pick(new)
+  how = rng.choice(['remove-one', 'remove-one', 'clear-all', 'replace'])
+  if how == 'remove-one':
+    fdl.remove_tag(tgt, 'a', vtags.TagA)
+  elif how == 'clear-all':
+    for k in ('a', 'b', 'k'):
+      fdl.clear_tags(tgt, k)
+  else:
+    fdl.set_tags(tgt, 'b', {vtags.TagC})
+  acc.obs('pairs_swapping_to_a_callable_with_annotation_tags_partly_removed')
+  return old_root, new_root, ['callable-swap-to-annotated:' + how], 'edits', old, new
+
+
 def run_case(rng, acc):
-  pair = custom_container_pair(rng, acc) if rng.random() < 0.15 else gen_pair(rng, acc)
+  r_ = rng.random()
+  pair = (custom_container_pair(rng, acc) if r_ < 0.15 else
+          annotated_swap_pair(rng, acc) if r_ < 0.2 else gen_pair(rng, acc))
   if pair is None:
     return
   old_root, new_root, edits, mode, old, new = pair
